@@ -77,21 +77,102 @@ pub fn worker_threads() {
                     barrier.wait();
                     let mut out = Vec::new();
                     for c in &script { out.push(exec(&mut store, c)); }
-                    out.join("\x1e")
+                    let mut names: Vec<&String> = store.keys().collect();
+                    names.sort();
+                    let trees: Vec<MarkerTree> = names.iter().map(|n| store[*n].clone()).collect();
+                    (out.join("\x1e"), trees)
                 }));
-                let _ = tx.send((t, r.unwrap_or_else(|_| "panic".into())));
+                let _ = tx.send((t, r.unwrap_or_else(|_| ("panic".into(), vec![]))));
             });
         }
         let mut res = vec![String::new(); n];
+        let mut trees: Vec<Vec<MarkerTree>> = vec![vec![]; n];
         for _ in 0..n {
             match rx.recv_timeout(std::time::Duration::from_secs(60)) {
-                Ok((t, r)) => res[t] = r,
+                Ok((t, (r, tr))) => { res[t] = r; trees[t] = tr; }
                 Err(_) => return "deadlock".into(),
             }
         }
         let all_same = res.iter().all(|r| *r == res[0]);
-        format!("{} {}", all_same as u8, hex(&res[0]))
+        // the same marker built by different threads is one marker: ==, cmp Equal, same hash — and
+        // the same again when rebuilt afterwards on this thread
+        let mut after = HashMap::new();
+        let _ = std::panic::catch_unwind(std::panic::AssertUnwindSafe(|| { for c in &script { exec(&mut after, c); } }));
+        let mut names: Vec<&String> = after.keys().collect();
+        names.sort();
+        let after_trees: Vec<MarkerTree> = names.iter().map(|n| after[*n].clone()).collect();
+        let mut cross = true;
+        for tr in &trees {
+            if tr.len() != after_trees.len() { cross = false; continue; }
+            for (a, b) in tr.iter().zip(after_trees.iter()) {
+                if a != b || a.cmp(b) != std::cmp::Ordering::Equal || hash_of(a) != hash_of(b) { cross = false; }
+            }
+        }
+        format!("{}{} {}", all_same as u8, cross as u8, hex(&res[0]))
     });
+}
+
+
+/// Sibling markers: the same root test above *different non-terminal* sub-markers.  Their order must be
+/// the order of the sub-markers themselves, whichever of those happened to be created first.
+fn sibling_texts(salt: &str) -> Vec<String> {
+    let roots = [
+        format!("python_full_version >= '3.{}'", 7 + salt.len() % 5),
+        format!("os_name == 'sib{salt}'"),
+        format!("sys_platform in 'sib{salt} other'"),
+        format!("'sib{salt}' in platform_machine"),
+        format!("extra == 'aa{}'", salt.to_lowercase()),
+    ];
+    let subs = [
+        format!("extra == 'omega{}'", salt.to_lowercase()),
+        format!("extra == 'beta{}'", salt.to_lowercase()),
+        format!("extra != 'gamma{}'", salt.to_lowercase()),
+        format!("(extra == 'mu{0}' or extra == 'nu{0}')", salt.to_lowercase()),
+    ];
+    let mut v = Vec::new();
+    for r in &roots {
+        for s in &subs {
+            v.push(format!("{r} and {s}"));
+            v.push(format!("{r} or {s}"));
+        }
+    }
+    v
+}
+
+/// fresh processes that create the same markers in different orders must relate them identically
+fn cross_process_order(out: &mut Out, prop: &str, rng: &mut Rng, salt: &str) {
+    let texts = sibling_texts(salt);
+    let named: Vec<(String, String)> = texts.iter().enumerate().map(|(i, t)| (format!("s{i}"), t.clone())).collect();
+    let mut orders: Vec<Vec<usize>> = vec![(0..named.len()).collect(), (0..named.len()).rev().collect()];
+    let mut sh: Vec<usize> = (0..named.len()).collect();
+    for i in (1..sh.len()).rev() { let j = rng.below(i + 1); sh.swap(i, j); }
+    orders.push(sh);
+    let mut reference: Option<Vec<String>> = None;
+    for (k, ord) in orders.iter().enumerate() {
+        let mut w = Worker::spawn("hist");
+        // sub-markers alone first, in this order: they get their ids now
+        for &i in ord {
+            let sub = named[i].1.rsplit_once(if named[i].1.contains(" and ") { " and " } else { " or " }).map(|x| x.1.to_string()).unwrap_or_default();
+            w.call(&format!("p t{i} {}", hex(&sub)));
+        }
+        for &i in ord { w.call(&format!("p {} {}", named[i].0, hex(&named[i].1))); }
+        let mut rel = Vec::new();
+        for (a, _) in &named { for (b, _) in &named { let r = w.call(&format!("rel {a} {b}")); let f: Vec<&str> = r.split(' ').collect(); rel.push(format!("{} {}", f[0], f.get(1).unwrap_or(&"?"))); } }
+        out.evaluations += 1;
+        match &reference {
+            None => reference = Some(rel),
+            Some(r0) => {
+                for (idx, (x, y)) in r0.iter().zip(rel.iter()).enumerate() {
+                    if x != y {
+                        let (i, j) = (idx / named.len(), idx % named.len());
+                        out.oracle_fail(prop, "the order / equality of two markers differs between fresh processes that created the same markers in a different order", serde_json::json!({"class": "sibling-order", "a": named[i].1, "b": named[j].1, "first_process": x, "this_process": y, "creation_order": ord, "history": k}));
+                        break;
+                    }
+                }
+                out.nontrivial(format!("sib {salt}.{k}"));
+            }
+        }
+    }
 }
 
 fn script_for(items: &[(String, String)], ops: &[String]) -> Vec<String> {
@@ -147,6 +228,24 @@ pub fn run(out: &mut Out, tier: &str, seed: u64, prop: &str) {
                         }
                     }
                 }
+            }
+            // sibling markers, in-process (ids vs structure) and across fresh processes
+            {
+                let texts = sibling_texts(&format!("P{seed}"));
+                let mut idx: Vec<usize> = (0..texts.len()).collect();
+                for i in (1..idx.len()).rev() { let j = rng.below(i + 1); idx.swap(i, j); }
+                let mut trees: Vec<Option<MarkerTree>> = vec![None; texts.len()];
+                for &i in &idx { trees[i] = MarkerTree::from_str(&texts[i]).ok(); }
+                for i in 0..texts.len() {
+                    for j in 0..texts.len() {
+                        let (Some(a), Some(b)) = (&trees[i], &trees[j]) else { continue };
+                        out.evaluations += 1;
+                        let o = match a.cmp(b) { std::cmp::Ordering::Less => "lt", std::cmp::Ordering::Equal => "eq", std::cmp::Ordering::Greater => "gt" };
+                        out.case(format!("cmp\tL {}\tL {}", dump(a), dump(b)), format!("{o} {}", (a == b) as u8));
+                        out.stat("c16.sibling_pairs");
+                    }
+                }
+                for r in 0..(if big { 6 } else { 2 }) { cross_process_order(out, "C16", &mut rng, &format!("Q{seed}r{r}")); }
             }
         }
         "C14" => {
@@ -226,6 +325,7 @@ pub fn run(out: &mut Out, tier: &str, seed: u64, prop: &str) {
                     }
                 }
             }
+            for r in 0..(if big { 6 } else { 2 }) { cross_process_order(out, "C14", &mut rng, &format!("H{seed}r{r}")); }
         }
         "C15" => {
             let rounds = if big { 60 } else { 12 };
@@ -255,7 +355,8 @@ pub fn run(out: &mut Out, tier: &str, seed: u64, prop: &str) {
                         continue;
                     }
                     let (same, digest) = par.split_once(' ').unwrap();
-                    if same != "1" { out.oracle_fail("C15", "threads running the same operations observed different results", input.clone()); }
+                    if !same.starts_with('1') { out.oracle_fail("C15", "threads running the same operations observed different results", input.clone()); }
+                    if same.len() > 1 && !same.ends_with('1') { out.oracle_fail("C15", "the same marker built by different threads (or rebuilt afterwards) is not one marker: != / cmp / hash differ", input.clone()); }
                     let seq_digest = seq.split_once(' ').map(|x| x.1).unwrap_or("");
                     // hashes of NodeIds are process-history dependent: compare everything except the hash bit of unequal pairs
                     if strip_hash(&unhex(digest)) != strip_hash(&unhex(seq_digest)) {
